@@ -63,15 +63,15 @@ func checkRangeIndexHelper(ri *structs.Numbers, colVal string, operator sutils.F
 		case sutils.RNT_UNSIGNED_INT:
 			convertedVal, err := dtu.ConvertToUInt(colVal, 64)
 			if err != nil {
-				log.Errorf("qid=%d checkRangeIndexHelper: Got an invalid literal for range filter: %s", qid, err)
-				return false
+				// a negative or decimal literal: compare by value against the bounds
+				return checkRangeAsFloat(colVal, operator, float64(ri.Min_uint64), float64(ri.Max_uint64), qid)
 			}
 			valueInRangeIndex = doesUintPassRangeFilter(operator, convertedVal, ri.Min_uint64, ri.Max_uint64)
 		case sutils.RNT_SIGNED_INT:
 			convertedVal, err := dtu.ConvertToInt(colVal, 64)
 			if err != nil {
-				log.Errorf("qid=%d checkRangeIndexHelper: Got an invalid literal for range filter: %s", qid, err)
-				return false
+				// a decimal literal: compare by value against the bounds
+				return checkRangeAsFloat(colVal, operator, float64(ri.Min_int64), float64(ri.Max_int64), qid)
 			}
 			valueInRangeIndex = doesIntPassRangeFilter(operator, convertedVal, ri.Min_int64, ri.Max_int64)
 		case sutils.RNT_FLOAT64:
@@ -86,6 +86,18 @@ func checkRangeIndexHelper(ri *structs.Numbers, colVal string, operator sutils.F
 		}
 	}
 	return valueInRangeIndex
+}
+
+// checkRangeAsFloat is used when the literal is not an integer of the index's
+// type (e.g. "0.5" or "-1" against an unsigned index): the block may only be
+// skipped if no value between the bounds can satisfy the comparison.
+func checkRangeAsFloat(colVal string, operator sutils.FilterOperator, minVal float64, maxVal float64, qid uint64) bool {
+	convertedVal, err := dtu.ConvertToFloat(colVal, 64)
+	if err != nil {
+		log.Errorf("qid=%d checkRangeIndexHelper: Got an invalid literal for range filter: %s", qid, err)
+		return false
+	}
+	return doesFloatPassRangeFilter(operator, convertedVal, minVal, maxVal)
 }
 
 func FilterBlocksByTime(bSum []*structs.BlockSummary, blkTracker *structs.BlockTracker,
